@@ -37,7 +37,7 @@ def run(tier, replay=None):
     exe = common.hbuild('h_codec', ['h_codec.cpp'], 'asan', need_reflect=True)
     env = common.san_env(dict(VERIF_PADSET=','.join(map(str, pad)), VERIF_NOPADSET=','.join(map(str, nopad))))
     extra = 0 if tier == 'quick' else 10000
-    sh = common.Sharded(exe, lambda a, b: ['c02', common.seed(), a, b, path, extra], len(imgs), env=env, chunk=4, tag='c02',
+    sh = common.Sharded(exe, lambda a, b: ['c02', common.seed(), a, b, path, extra], len(imgs) + 1, env=env, chunk=4, tag='c02',     # the extra case is the two-decoders-at-once stage
                         timeout=1500).run()
     common.absorb(res, sh)
     st = common.merge_stats(sh.stats)
@@ -47,12 +47,15 @@ def run(tier, replay=None):
                 '(recomputed size/length fields against recomputed values); then every byte between the base header and objectSize '
                 'overwritten with {00,01,7f,80,ff,old^1,old^80} and every aligned 2/4/8-byte group with boundary values'
                 + ('; plus %d random 2-3 byte simultaneous overwrites per image' % extra if extra else '') +
-                '. distinct_nontrivial = derived images that decode completely with the same shape (those must re-encode identically)')
+                '; plus a stage in which all images are decoded and re-encoded on two threads at once (40 rounds, opposite order). distinct_nontrivial = derived images that decode completely with the same shape (those must re-encode identically)')
     res.exhaustive = True
     res.samples = [s for s in st.get('samples', []) if s][:8]
     res.extra = dict(images=st.get('images', 0), images_from_logs=nlogs, raw_sample_objects=raw, types=len(set(st.get('types', []))),
                      images_decoded_whole=st.get('whole', 0), mutated_cases=st.get('mutated', 0),
-                     shape_preserving_cases=st.get('shape_preserving', 0), undecodable_cases=st.get('undecodable', 0))
+                     shape_preserving_cases=st.get('shape_preserving', 0), undecodable_cases=st.get('undecodable', 0),
+                     concurrent_decoder_rounds=st.get('concurrent_decoder_rounds', 0))
+    if not st.get('concurrent_decoder_rounds') and not sh.crashes:
+        res.inconclusive.append('the two-decoders-at-once stage did not run')
     if st.get('images', 0) != len(imgs) and not sh.crashes:
         res.inconclusive.append('only %d of %d images processed' % (st.get('images', 0), len(imgs)))
     return res.finish()
